@@ -187,6 +187,22 @@ def run_case(case):
             if d:
                 clause = "write_shows_through" if nm != side else "write_lost"
                 return fail(clause, f"write to {side} at {path} (shared buffer: {shared}, referent still shared: {still_shared}); {nm}: {d}", "through_ref" if through_ref else "direct", labels)
+    # --- a second copy of the (meanwhile modified) original into the same destination: it must equal the original as
+    #     it is NOW, and must not change the first copy
+    if case["writes"] and spec["k"] != "unionref":
+        copy2 = sut(lambda: node.cls(orig, **kw))
+        if is_raised(copy2):
+            return fail("second_copy_raised", f"{dest}: {copy2}", copy2.key, labels)
+        g = sut(mat.walk, copy2, node)
+        if is_raised(g):
+            return fail("copy_read_raised", f"second copy, {dest}: {g}", g.key, labels)
+        d = tg.first_diff(spec, mo, g)
+        if d:
+            return fail("second_copy_differs", f"{dest}: second copy vs the original's current value: {d}", "", labels)
+        g1 = sut(mat.walk, copy, node)
+        if is_raised(g1) or tg.first_diff(spec, mc, g1):
+            return fail("second_copy_changed_first", f"{dest}: {g1 if is_raised(g1) else tg.first_diff(spec, mc, g1)}", "", labels)
+        labels.add("second_copy")
     tl = labels
     nontrivial = ("ref_inside_array" in tl) or ("struct_2plus_dynamic_fields" in tl) or (tg.has_refs(spec) and "struct_nested" in tl)
     return Outcome(True, labels=sorted(labels), nontrivial=nontrivial)
